@@ -229,6 +229,26 @@ Definition parse_lines (q : quirks) (tms : bool) (t : table) (lines : list strin
   let limit := if tms then line_limit_tms lines else line_limit q lines in
   map (fun l => convert_row t (line_texts q t limit l)) lines.
 
+(* np.genfromtxt returns a 0-d array for exactly one data line and a 1-d array otherwise (an empty one for no line).
+   parse_blocks stores np.atleast_1d of it, so a block parser always iterates over rows; with [q_scalar] (the code before
+   708b245) the 0-d array was stored and iterating over it raised TypeError ([None]). *)
+Inductive ndarray (A : Type) := Arr0 (r : A) | Arr1 (rs : list A).
+Arguments Arr0 {A} r.
+Arguments Arr1 {A} rs.
+Definition genfromtxt_shape {A} (rows : list A) : ndarray A := match rows with [r] => Arr0 r | _ => Arr1 rows end.
+Definition atleast_1d {A} (a : ndarray A) : list A := match a with Arr0 r => [r] | Arr1 rs => rs end.
+Definition stored_rows {A} (q : quirks) (rows : list A) : option (list A) :=
+  if q_scalar q then match genfromtxt_shape rows with Arr0 _ => None | Arr1 rs => Some rs end
+  else Some (atleast_1d (genfromtxt_shape rows)).
+
+(* the rows a block parser sees for the data lines of one block; a table without fields cannot be parsed at all
+   (np.genfromtxt: "could not assign tuple of length 1 to structure with 0 fields") *)
+Definition parse_block (q : quirks) (tms : bool) (t : table) (lines : list string) : option (list (list cell)) :=
+  match t with
+  | [] => None
+  | _ => stored_rows q (parse_lines q tms t lines)
+  end.
+
 (* ------------------------------------------------------------------------------------------ block scanning *)
 Definition mem (m : string) (l : list string) : bool := existsb (String.eqb m) l.
 Definition remove (m : string) (l : list string) : list string := filter (fun x => negb (String.eqb m x)) l.
@@ -409,7 +429,7 @@ Definition gen_rows (t : table) (gen : list (list string)) : list (list cell) :=
 Definition model_rows (q : quirks) (tms : bool) (t : table) (wanted : list string) (marker : string) (file : list string)
   : option (list (list cell)) :=
   match lookup marker (found_assoc (scan wanted None file)) with
-  | Some (_, body) => Some (parse_lines q tms t body)
+  | Some (_, body) => parse_block q tms t body
   | None => None
   end.
 
@@ -469,7 +489,7 @@ Definition model_matrix (q : quirks) (t : table) (wanted : list string) (marker 
   : option (bool * (nat -> nat -> Q)) :=
   match lookup marker (found_assoc (scan wanted None file)) with
   | Some (ps, body) =>
-      match ps, all_some (map mline_of_row (parse_lines q false t body)) with
+      match ps, match parse_block q false t body with Some rs => all_some (map mline_of_row rs) | None => None end with
       | form :: _, Some ls =>
           let lower := String.eqb form "L" || String.eqb form "l" in
           Some (lower, parse_matrix 0%Q q lower ls)
@@ -525,11 +545,85 @@ Definition check_regroup (mode k : nat) (rows : list (list ocell)) (groups : lis
      forallb (fun '(k, rs) => match lookup k groups with Some rs' => groups_eqb rs rs' | None => false end) model
   then 0%Z else 1%Z.
 
-(* a block of exactly one line: the specification returns its row (verdict 0, the rows are checked as usual);
-   as built the iterating parsers raise (verdict 6); any other exception is unexplained *)
-Definition check_crash (q : quirks) (rows_per_block : list nat) (crashed : bool) : Z :=
-  let predicted := q_scalar q && existsb (Nat.eqb 1) rows_per_block in
-  if negb crashed then 0%Z else if predicted then 6%Z else 1%Z.
+(* the parser raised an exception (crashed = true).  The only explained one: a wanted block that is present in the file
+   declares no fields (verdict 7; SITE/GAL_PHASE_CENTER); anything else is unexplained *)
+Definition check_exception (fields_per_present_block : list nat) (crashed : bool) : Z :=
+  if negb crashed then 0%Z else if existsb (Nat.eqb 0) fields_per_present_block then 7%Z else 1%Z.
+
+(* ------------------------------------------------------------------------------------------ header line *)
+(* parse_header_line: the first line must start with the magic ("%=SNX" / "%=TMS"), else nothing is stored;
+   parse_lines([line]) -> one row, stored in meta by name *)
+Definition parse_header (q : quirks) (tms : bool) (magic : string) (t : table) (line : string) : option (list cell) :=
+  if startswith magic line then
+    match parse_lines q tms t [line] with [r] => Some r | _ => None end
+  else None.
+
+Definition check_header (tms : bool) (magic : string) (t : table) (line : string) (gen : list string)
+           (obs : option (list ocell)) : Z :=
+  match obs, parse_header all_off tms magic t line with
+  | None, None => 0%Z
+  | Some o, Some r =>
+      if all2 cell_ok (convert_row (map untruncated t) gen) o then (if all2 cell_ok r o then 0 else 9)%Z else 1%Z
+  | _, _ => 1%Z
+  end.
+
+(* ------------------------------------------------------------------------------------------ sinex_tms TIMESERIES/DATA *)
+(* parse_lines with the "list" converter: np.genfromtxt(lines, delimiter=None): blank separated tokens per line;
+   parse_timeseries_data: column j is named TIMESERIES/COLUMNS name[j] (lower case), text for the date columns,
+   float otherwise; zip() stops at the shorter of names / columns *)
+Definition is_date_column (name : string) : bool := (name =? "YYYY-MM-DD") || (name =? "YYYY-DDD").
+Definition ts_cell (name tok : string) : cell :=
+  if is_date_column name then CText tok
+  else match parse_decimal tok with Some (sg, q) => CNum sg q | None => CNaN end.
+Fixpoint ts_columns (names : list string) (j : nat) (rows : list (list string)) : list (string * list cell) :=
+  match names with
+  | [] => []
+  | n :: ns => (lower n, map (fun r => ts_cell n (nth j r "")) rows) :: ts_columns ns (S j) rows
+  end.
+Definition width_of (rows : list (list string)) : nat := match rows with r :: _ => List.length r | [] => 0 end.
+Definition timeseries_data (names : list string) (rows : list (list string)) : list (string * list cell) :=
+  ts_columns (firstn (width_of rows) names) 0 rows.
+Definition parse_list_lines (lines : list string) : list (list string) := map split_ws lines.
+
+(* names: what the TIMESERIES/COLUMNS block gave (observed, checked separately); gen: the tokens the writer wrote;
+   obs: (key, values) of parser.data["timeseries_data"] *)
+Definition columns_ok (m : list (string * list cell)) (obs : list (string * list ocell)) : bool :=
+  all2 (fun a b => String.eqb (fst a) (fst b) && all2 cell_ok (snd a) (snd b)) m obs.
+Definition check_timeseries (wanted : list string) (file : list string) (names : list string)
+           (gen : list (list string)) (obs : list (string * list ocell)) : Z :=
+  let oracle := columns_ok (timeseries_data names gen) obs in
+  let model := match lookup "TIMESERIES/DATA" (found_assoc (scan wanted None file)) with
+               | Some (_, body) => columns_ok (timeseries_data names (parse_list_lines body)) obs
+               | None => false end in
+  if oracle then (if model then 0 else 9)%Z else 1%Z.
+
+(* ------------------------------------------------------------------------------------------ as_dataset hand-over *)
+(* a dataset column against the tokens of the file column it was built from *)
+Definition check_column (kind : string) (toks : list string) (obs : list ocell) : Z :=
+  let conv tok :=
+    if kind =? "text" then CText tok
+    else if kind =? "lower" then CText (lower tok)
+    else if kind =? "exponent" then match convert_exponent tok with Some (sg, q) => CNum sg q | None => CNaN end
+    else if kind =? "epoch" then CTime (convert_epoch tok)
+    else if kind =? "yyyy" then CTime (convert_yyyy tok)
+    else match parse_decimal tok with Some (sg, q) => CNum sg q | None => CNaN end in
+  if all2 cell_ok (map conv toks) obs then 0%Z else 1%Z.
+
+(* YYYY-MM-DD against (year, month, day) of the dataset's time *)
+Definition check_dates (toks : list string) (obs : list (Z * Z * Z)) : Z :=
+  if all2 (fun tok '(y, m, d) =>
+             match digits_val (slice 0 4 tok), digits_val (slice 5 7 tok), digits_val (slice 8 10 tok) with
+             | Some y', Some m', Some d' => (y =? y')%Z && (m =? m')%Z && (d =? d')%Z && (len tok =? 10)%nat
+             | _, _, _ => false
+             end) toks obs then 0%Z else 1%Z.
+
+(* ------------------------------------------------------------------------------------------ whole files *)
+(* read_data: scan the file for the declared markers, then parse every found block with its table *)
+Definition parse_file (q : quirks) (tms : bool) (decl : list (string * table)) (file : list string)
+  : list (string * list string * option (list (list cell))) :=
+  map (fun '(m, ps, body) =>
+         (m, ps, match lookup m decl with Some t => parse_block q tms t body | None => None end))
+      (scan (map fst decl) None file).
 
 (* tables by attribute name / marker out of a regenerated block list *)
 Fixpoint get_block (attr : string) (l : list raw_block) : option raw_block :=
